@@ -273,7 +273,7 @@ func init() {
 	// listener's Stop then waits for it. Whatever the client calls meanwhile (Resume, Pause, TunePool,
 	// submissions), once everything is at rest the worker is Stopped (C14: cancelling a configured
 	// context stops the worker; the listener interleaves arbitrarily).
-	registerFamily("ctxstop", []string{"C14", "C03"}, func(e *env) {
+	registerFamily("ctxstop", []string{"C14", "C03", "C16"}, func(e *env) {
 		r := vt.Rand()
 		e.kind = e.p("kind", r.Intn(3))
 		e.conc = e.p("conc", 1+r.Intn(2))
@@ -293,7 +293,7 @@ func init() {
 		var jn joiner
 		jn.goClient("meddler", func() {
 			for i := 1 + r.Intn(3); i > 0; i-- {
-				switch r.Intn(5) {
+				switch r.Intn(6) {
 				case 0, 1:
 					e.lifecycle("Resume", 0)
 				case 2:
@@ -302,6 +302,11 @@ func init() {
 					e.lifecycle("TunePool", 1+r.Intn(3))
 				case 4:
 					e.add(q, 0, oOK, false, "")
+				case 5:
+					// a job's status while its function is still held at the gate: Processing
+					for _, s := range e.subs {
+						e.statusJob(s)
+					}
 				}
 				for k := r.Intn(3); k > 0; k-- {
 					vt.Yield()
